@@ -283,4 +283,28 @@ theorem fragment14_conforms : type_of% @GM.Props.C02FragInteg.fragment14_conform
 /-- (re-export of `GM.Props.C02FragInteg.fragment13_conforms_quoted`) **The union fragment inside `k+1` nested block quotes** (stage 13, quoted) -/
 theorem fragment13_conforms_quoted : type_of% @GM.Props.C02FragInteg.fragment13_conforms_quoted := @GM.Props.C02FragInteg.fragment13_conforms_quoted
 
+/-- (re-export of `GM.Props.C02Frag.fragment21_conforms`) **Conformance of the full union.** For EVERY document `d : F21Doc` — paragraphs, ATX headings, thematic breaks, fenced
+    and indented code blocks, abutting where CommonMark allows (stages 6, 12) — where every paragraph line and every heading
+    text is a rich line whose non-text atoms are, IN ANY MIX, code spans, `*x*` / `**x**`, `_x_` / `__x__` (the source bytes
+    outside an underscore run not alphanumeric), inline links `[t](d)`, images `![t](d)`, URI autolinks `<s:r>`, raw tags
+    `<n>` / `</n>`, and a paragraph line that is not the last may end with a backslash hard break (`F21Frag`, decidable):
+    the model of goldmark's `Convert` returns exactly the prescribed HTML. Contains stages 1–9, 11–13, 16–20. (Emphasis
+    delimiters stay pending across links / images until the end of the block: `link_step21`, `processDelimiters_rawS21`.) -/
+theorem fragment21_conforms : type_of% @GM.Props.C02Frag.fragment21_conforms := @GM.Props.C02Frag.fragment21_conforms
+
+/-- (re-export of `GM.Props.C02Frag.fragment21_conforms_no_final_newline`) … written without the final line feed (the last block not an indented code block) -/
+theorem fragment21_conforms_no_final_newline : type_of% @GM.Props.C02Frag.fragment21_conforms_no_final_newline := @GM.Props.C02Frag.fragment21_conforms_no_final_newline
+
+/-- (re-export of `GM.Props.C02Frag.fragment21_conforms_spec`) **The full union stated on the spec model itself.** -/
+theorem fragment21_conforms_spec : type_of% @GM.Props.C02Frag.fragment21_conforms_spec := @GM.Props.C02Frag.fragment21_conforms_spec
+
+/-- (re-export of `GM.Props.C02FragInteg.fragment22_conforms`) **Nested block quotes, wider class** (stage 22: digits, `*`, `+`, `-` inside; no line ending in `-` / `=`) -/
+theorem fragment22_conforms : type_of% @GM.Props.C02FragInteg.fragment22_conforms := @GM.Props.C02FragInteg.fragment22_conforms
+
+/-- (re-export of `GM.Props.C02FragInteg.fragment22_conforms_union`) **The union fragment with `*` emphasis inside nested block quotes** (stage 22) -/
+theorem fragment22_conforms_union : type_of% @GM.Props.C02FragInteg.fragment22_conforms_union := @GM.Props.C02FragInteg.fragment22_conforms_union
+
+/-- (re-export of `GM.Props.C02FragInteg.fragment23_conforms`) **The full union (stage 21) inside nested block quotes** (stage 23) -/
+theorem fragment23_conforms : type_of% @GM.Props.C02FragInteg.fragment23_conforms := @GM.Props.C02FragInteg.fragment23_conforms
+
 end GM.Props.C02
